@@ -331,7 +331,7 @@ class World(object):
   def settle(self):
     CUR[0] = self
     g = S['gevent']
-    for _ in range(12):
+    for _ in range(40):      # a failed open unwinds one callback level per loop iteration
       g.sleep(0)
 
   def gauges(self):
